@@ -84,7 +84,11 @@ class JSONEncoder(json.JSONEncoder):
 
 def _load_docstring(obj_dict: dict) -> Docstring | None:
     if "docstring" in obj_dict:
-        return Docstring(**obj_dict["docstring"])
+        docstring = Docstring(**obj_dict["docstring"])
+        # The serialised value was already cleaned up, and cleaning is not idempotent
+        # (a first text line indented deeper than the rest would lose its indentation).
+        docstring.value = obj_dict["docstring"]["value"]
+        return docstring
     return None
 
 
